@@ -59,7 +59,7 @@ func (x *NotExpr) Eval(ok func(tag string) bool) bool {
 func (x *NotExpr) String() string {
 	s := x.X.String()
 	switch x.X.(type) {
-	case *AndExpr, *OrExpr:
+	case *AndExpr, *OrExpr, *NotExpr: // "!!x" is not valid syntax: print !(!x)
 		s = "(" + s + ")"
 	}
 	return "!" + s
